@@ -1,89 +1,102 @@
 import Proofs.Lemmas.ExcTrace
-/-! C05: "finally exactly once" — one `try` statement, and the alternation invariant over whole runs. -/
+/-! C05: "finally exactly once" — one `try` statement executed by one activation, and the alternation invariant over
+whole runs of re-entrant programs (per activation level). -/
 namespace Proofs.Exc
 open Model.Exc
 open Spec.Exc (mentionsS mentionsB mentionsC goodS goodB goodC isTryEv proj Alternates)
 
-theorem proj_enterTry (i : Nat) : proj i [.enterTry i] = [.enterTry i] := by simp [proj, isTryEv]
-theorem proj_enterFinally (i : Nat) : proj i [.enterFinally i] = [.enterFinally i] := by simp [proj, isTryEv]
+theorem proj_enterTry (L i : Nat) : proj L i [.enterTry L i] = [.enterTry L i] := by simp [proj, isTryEv]
+theorem proj_enterFinally (L i : Nat) : proj L i [.enterFinally L i] = [.enterFinally L i] := by simp [proj, isTryEv]
 
-/-- One `try` statement numbered `i` with a finally block, whose parts contain no other `try` numbered `i`:
-whatever the parts do and however control leaves, the statement adds exactly `enterTry i, enterFinally i`
-to the events of try `i`. -/
-theorem try_once (G : Model.Hier.Graph) (cfg : Cfg) (hg : cfg.guarded = true) (i : Nat) (b : Block) (cs : Catches)
-    (fin : Block) (hb : mentionsB i b = false) (hc : mentionsC i cs = false) (hf : mentionsB i fin = false)
+/-- One `try` statement numbered `i` with a finally block, whose parts contain no other `try` numbered `i`, executed
+by activation `A` whose callees emit no event of try `i` at `A`'s level (they run at lower levels): whatever the
+parts and the callees do and however control leaves, the statement adds exactly `enterTry, enterFinally` to the
+events of try `i` of that level. -/
+theorem try_once (G : Model.Hier.Graph) (cfg : Cfg) (hg : cfg.guarded = true) (A : Act) (i : Nat) (b : Block)
+    (cs : Catches) (fin : Block) (hb : mentionsB i b = false) (hc : mentionsC i cs = false)
+    (hf : mentionsB i fin = false) (henv : ∀ k, Extends (NoEv A.lvl i) (A.env k))
     (cur : Option Thrown) (tr : List Ev) :
-    ∃ ext, (exec G cfg cur (.try_ i b cs true fin) tr).2 = tr ++ ext ∧
-      proj i ext = [.enterTry i, .enterFinally i] := by
-  have hb' := execB_noEv G cfg hg i b hb cur
-  have hc' : ∀ x, Extends (fun e => proj i e = []) (fun t => execC G cfg i 0 x cs t) :=
-    fun x => execC_noEv G cfg hg i cs hc i 0 x
-  have hf' := execB_noEv G cfg hg i fin hf cur
+    ∃ ext, (exec G cfg cur A (.try_ i b cs true fin) tr).2 = tr ++ ext ∧
+      proj A.lvl i ext = [.enterTry A.lvl i, .enterFinally A.lvl i] := by
+  have hb' := execB_noEv G cfg hg A.lvl i A henv b (fun _ => hb) cur
+  have hc' : ∀ x, Extends (NoEv A.lvl i) (fun t => execC G cfg A i 0 x cs t) :=
+    fun x => execC_noEv G cfg hg A.lvl i A henv cs (fun _ => hc) i 0 x
+  have hf' := execB_noEv G cfg hg A.lvl i A henv fin (fun _ => hf) cur
   simp only [exec, hg, if_true]
-  obtain ⟨e1, e2, e3, p1, p2, p3, hs⟩ := tryStmt_shape (mon_noEv i) i true hb' hc' hf' tr
-  refine ⟨[.enterTry i] ++ e1 ++ e2 ++ ([.enterFinally i] ++ e3), by rw [hs]; simp [List.append_assoc], ?_⟩
+  obtain ⟨e1, e2, e3, p1, p2, p3, hs⟩ := tryStmt_shape (mon_noEv A.lvl i) A.lvl i true hb' hc' hf' tr
+  refine ⟨[.enterTry A.lvl i] ++ e1 ++ e2 ++ ([.enterFinally A.lvl i] ++ e3), by rw [hs]; simp [List.append_assoc], ?_⟩
+  unfold NoEv at p1 p2 p3
   simp only [proj_append, p1, p2, p3, proj_enterTry, proj_enterFinally]
   rfl
 
-theorem alternates_one (i : Nat) : Alternates i [.enterTry i, .enterFinally i] := ⟨1, rfl⟩
+theorem alternates_one (L i : Nat) : Alternates L i [.enterTry L i, .enterFinally L i] := ⟨1, rfl⟩
 
 mutual
-theorem exec_alt (G : Model.Hier.Graph) (cfg : Cfg) (hg : cfg.guarded = true) (i : Nat) :
-    ∀ (s : Stmt), goodS i s = true → ∀ cur, Extends (fun e => Alternates i (proj i e)) (exec G cfg cur s)
-  | .echo m, _, cur => fun tr => ⟨[.echo m], by simp [exec], by show Alternates i (proj i [.echo m]); rw [proj_single_other rfl]; exact alternates_nil i⟩
-  | .throw c st, _, cur => fun tr => ⟨[], by simp [exec], alternates_nil i⟩
-  | .rethrow, _, cur => fun tr => ⟨[], by simp [exec], alternates_nil i⟩
-  | .gopanic, _, cur => fun tr => ⟨[], by simp [exec], alternates_nil i⟩
-  | .ret v, _, cur => fun tr => ⟨[], by simp [exec], alternates_nil i⟩
-  | .brk, _, cur => fun tr => ⟨[], by simp [exec], alternates_nil i⟩
-  | .cont, _, cur => fun tr => ⟨[], by simp [exec], alternates_nil i⟩
+theorem exec_alt (G : Model.Hier.Graph) (cfg : Cfg) (hg : cfg.guarded = true) (L i : Nat) (A : Act)
+    (henv : ∀ k, Extends (Alt L i) (A.env k)) (hlow : A.lvl = L → ∀ k, Extends (NoEv L i) (A.env k)) :
+    ∀ (s : Stmt), goodS i s = true → ∀ cur, Extends (Alt L i) (exec G cfg cur A s)
+  | .echo m, _, cur => fun tr => ⟨[.echo A.lvl m], by simp [exec], alt_of_noEv (noEv_single rfl)⟩
+  | .throw c st, _, cur => fun tr => ⟨[], by simp [exec], alternates_nil L i⟩
+  | .rethrow, _, cur => fun tr => ⟨[], by simp [exec], alternates_nil L i⟩
+  | .gopanic, _, cur => fun tr => ⟨[], by simp [exec], alternates_nil L i⟩
+  | .ret v, _, cur => fun tr => ⟨[], by simp [exec], alternates_nil L i⟩
+  | .brk, _, cur => fun tr => ⟨[], by simp [exec], alternates_nil L i⟩
+  | .cont, _, cur => fun tr => ⟨[], by simp [exec], alternates_nil L i⟩
   | .loop k b, h, cur => by
-    have hb := execB_alt G cfg hg i b (by simpa [goodS] using h) cur
+    have hb := execB_alt G cfg hg L i A henv hlow b (by simpa [goodS] using h) cur
     intro tr
     simp only [exec]
-    exact loopN_extends (mon_alt i) hb k tr
+    exact loopN_extends (mon_alt L i) hb k tr
   | .call b, h, cur => by
-    have hb := execB_alt G cfg hg i b (by simpa [goodS] using h) none
+    have hb := execB_alt G cfg hg L i A henv hlow b (by simpa [goodS] using h) none
     intro tr
     simp only [exec]
-    exact callResult_extends (mon_alt i)
-      (fun v => by show Alternates i (proj i [.result v]); rw [proj_single_other rfl]; exact alternates_nil i) hb tr
+    exact callResult_extends (mon_alt L i) (fun v => alt_of_noEv (noEv_single rfl)) hb tr
+  | .callf k, _, cur => by
+    intro tr
+    simp only [exec]
+    exact callNamed_extends (mon_alt L i) (fun v => alt_of_noEv (noEv_single rfl)) A k (henv k) tr
   | .try_ j b cs hasFin fin, h, cur => by
     simp only [goodS, Bool.and_eq_true] at h
     obtain ⟨⟨⟨hj, hb⟩, hc⟩, hf⟩ := h
-    by_cases hji : j = i
-    · subst hji
+    by_cases hji : A.lvl = L ∧ j = i
+    · obtain ⟨hl, hji⟩ := hji
+      subst hji
       simp only [BEq.rfl, if_true, Bool.and_eq_true, Bool.not_eq_true'] at hj
       obtain ⟨⟨⟨hfin, nb⟩, nc⟩, nf⟩ := hj
       subst hfin
       intro tr
-      obtain ⟨ext, h1, h2⟩ := try_once G cfg hg j b cs fin nb nc nf cur tr
-      exact ⟨ext, h1, by show Alternates j (proj j ext); rw [h2]; exact alternates_one j⟩
-    · have hb' := execB_alt G cfg hg i b hb cur
-      have hc' : ∀ x, Extends (fun e => Alternates i (proj i e)) (fun t => execC G cfg j 0 x cs t) :=
-        fun x => execC_alt G cfg hg i cs hc j 0 x
-      have hf' := execB_alt G cfg hg i fin hf cur
+      obtain ⟨ext, h1, h2⟩ := try_once G cfg hg A j b cs fin nb nc nf (by rw [hl]; exact hlow hl) cur tr
+      refine ⟨ext, h1, ?_⟩
+      show Alternates L j (proj L j ext)
+      rw [← hl, h2]; exact alternates_one A.lvl j
+    · have hb' := execB_alt G cfg hg L i A henv hlow b hb cur
+      have hc' : ∀ x, Extends (Alt L i) (fun t => execC G cfg A j 0 x cs t) :=
+        fun x => execC_alt G cfg hg L i A henv hlow cs hc j 0 x
+      have hf' := execB_alt G cfg hg L i A henv hlow fin hf cur
       intro tr
       simp only [exec, hg, if_true]
-      obtain ⟨e1, e2, e3, p1, p2, p3, hs⟩ := tryStmt_shape (mon_alt i) j hasFin hb' hc' hf' tr
-      have hj' : isTryEv i (.enterTry j) = false := by simpa [isTryEv] using hji
-      have hj'' : isTryEv i (.enterFinally j) = false := by simpa [isTryEv] using hji
-      refine ⟨[.enterTry j] ++ e1 ++ e2 ++ (if hasFin then [.enterFinally j] ++ e3 else []),
+      obtain ⟨e1, e2, e3, p1, p2, p3, hs⟩ := tryStmt_shape (mon_alt L i) A.lvl j hasFin hb' hc' hf' tr
+      have hj' := isTryEv_enterTry_false hji
+      have hj'' := isTryEv_enterFinally_false hji
+      refine ⟨[.enterTry A.lvl j] ++ e1 ++ e2 ++ (if hasFin then [.enterFinally A.lvl j] ++ e3 else []),
         by rw [hs]; simp [List.append_assoc], ?_⟩
+      unfold Alt at *
       cases hasFin
       · simp only [proj_append, proj_single_other hj', Bool.false_eq_true, if_false, List.nil_append]
-        have : proj i ([] : List Ev) = [] := rfl
+        have : proj L i ([] : List Ev) = [] := rfl
         rw [this, List.append_nil]
         exact alternates_append p1 p2
       · simp only [if_true, proj_append, proj_single_other hj', proj_single_other hj'', List.nil_append]
         exact alternates_append (alternates_append p1 p2) p3
-theorem execB_alt (G : Model.Hier.Graph) (cfg : Cfg) (hg : cfg.guarded = true) (i : Nat) :
-    ∀ (b : Block), goodB i b = true → ∀ cur, Extends (fun e => Alternates i (proj i e)) (execB G cfg cur b)
-  | .nil, _, cur => fun tr => ⟨[], by simp [execB], alternates_nil i⟩
+theorem execB_alt (G : Model.Hier.Graph) (cfg : Cfg) (hg : cfg.guarded = true) (L i : Nat) (A : Act)
+    (henv : ∀ k, Extends (Alt L i) (A.env k)) (hlow : A.lvl = L → ∀ k, Extends (NoEv L i) (A.env k)) :
+    ∀ (b : Block), goodB i b = true → ∀ cur, Extends (Alt L i) (execB G cfg cur A b)
+  | .nil, _, cur => fun tr => ⟨[], by simp [execB], alternates_nil L i⟩
   | .cons s rest, h, cur => by
     simp only [goodB, Bool.and_eq_true] at h
-    have hs := exec_alt G cfg hg i s h.1 cur
-    have hr := execB_alt G cfg hg i rest h.2 cur
+    have hs := exec_alt G cfg hg L i A henv hlow s h.1 cur
+    have hr := execB_alt G cfg hg L i A henv hlow rest h.2 cur
     intro tr
     obtain ⟨e1, h1, p1⟩ := hs tr
     rw [execB]
@@ -91,24 +104,38 @@ theorem execB_alt (G : Model.Hier.Graph) (cfg : Cfg) (hg : cfg.guarded = true) (
     · rename_i tr' heq
       obtain ⟨e2, h2, p2⟩ := hr tr'
       have : tr' = tr ++ e1 := by rw [← h1, heq]
-      exact ⟨e1 ++ e2, by rw [h2, this, List.append_assoc], (mon_alt i).app p1 p2⟩
+      exact ⟨e1 ++ e2, by rw [h2, this, List.append_assoc], (mon_alt L i).app p1 p2⟩
     · exact ⟨e1, h1, p1⟩
-theorem execC_alt (G : Model.Hier.Graph) (cfg : Cfg) (hg : cfg.guarded = true) (i : Nat) :
-    ∀ (cs : Catches), goodC i cs = true → ∀ j k x, Extends (fun e => Alternates i (proj i e)) (execC G cfg j k x cs)
-  | .nil, _, j, k, x => fun tr => ⟨[], by simp [execC], alternates_nil i⟩
+theorem execC_alt (G : Model.Hier.Graph) (cfg : Cfg) (hg : cfg.guarded = true) (L i : Nat) (A : Act)
+    (henv : ∀ k, Extends (Alt L i) (A.env k)) (hlow : A.lvl = L → ∀ k, Extends (NoEv L i) (A.env k)) :
+    ∀ (cs : Catches), goodC i cs = true → ∀ j k x, Extends (Alt L i) (execC G cfg A j k x cs)
+  | .nil, _, j, k, x => fun tr => ⟨[], by simp [execC], alternates_nil L i⟩
   | .cons tys b rest, h, j, k, x => by
     simp only [goodC, Bool.and_eq_true] at h
-    have hb := execB_alt G cfg hg i b h.1 (some x)
-    have hr := execC_alt G cfg hg i rest h.2 j (k+1) x
+    have hb := execB_alt G cfg hg L i A henv hlow b h.1 (some x)
+    have hr := execC_alt G cfg hg L i A henv hlow rest h.2 j (k+1) x
     intro tr
     rw [execC]
     split
-    · obtain ⟨e, h1, p1⟩ := hb (tr ++ [.caught j k x])
-      refine ⟨[.caught j k x] ++ e, by rw [h1]; simp [List.append_assoc], ?_⟩
-      show Alternates i (proj i ([.caught j k x] ++ e))
-      rw [proj_append, proj_single_other rfl]
-      exact p1
+    · obtain ⟨e, h1, p1⟩ := hb (tr ++ [.caught A.lvl j k x])
+      refine ⟨[.caught A.lvl j k x] ++ e, by rw [h1]; simp [List.append_assoc], ?_⟩
+      exact (mon_alt L i).app (alt_of_noEv (noEv_single rfl)) p1
     · exact hr tr
 end
+
+/-- every call, from every level, adds an alternating sequence to the events of try `i` of level `L`: the nested
+activations that re-enter the same `try` statement run at other levels -/
+theorem envAt_alt (G : Model.Hier.Graph) (cfg : Cfg) (hg : cfg.guarded = true) (fns : List Block) (i : Nat)
+    (hf : ∀ b ∈ fns, goodB i b = true) : ∀ (n L : Nat) k, Extends (Alt L i) (envAt G cfg fns n k)
+  | 0, L, k => fun tr => ⟨[], by simp [envAt], alternates_nil L i⟩
+  | n+1, L, k => by
+    intro tr
+    rw [envAt]
+    split
+    · rename_i b hb
+      exact execB_alt G cfg hg L i ⟨n, envAt G cfg fns n⟩ (envAt_alt G cfg hg fns i hf n L)
+        (fun e => envAt_noEv_above G cfg hg fns i n L (by simp at e; omega)) b
+        (hf b (List.mem_of_getElem? hb)) none tr
+    · exact ⟨[], by simp, alternates_nil L i⟩
 
 end Proofs.Exc
